@@ -14,6 +14,7 @@ import (
 	"0chain.net/smartcontract/stakepool/spenum"
 	"0chain.net/smartcontract/zcnsc"
 	"github.com/0chain/common/core/currency"
+	"github.com/herumi/bls-go-binary/bls"
 	"verif/lib/chainsim"
 	"verif/lib/ev"
 	"verif/lib/world"
@@ -66,9 +67,47 @@ func mintPayload(w *world.World, mc *mintCase) *zcnsc.MintPayload {
 		if err != nil {
 			panic(err)
 		}
-		p.Signatures = append(p.Signatures, &zcnsc.AuthorizerSignature{ID: w.Actors[e.As].ID, Signature: sig})
+		id := w.Actors[e.As].ID
+		switch e.Kind {
+		case "upper", "mixed", "miracl":
+			sig = respell(sig, e.Kind)
+		case "idupper":
+			id = strings.ToUpper(id)
+		}
+		p.Signatures = append(p.Signatures, &zcnsc.AuthorizerSignature{ID: id, Signature: sig})
 	}
 	return p
+}
+
+// respell returns another spelling of the same BLS signature that BLS0ChainScheme.Verify accepts:
+// upper-case hex, mixed-case hex, or the MIRACL "(x,y)" form (affine coordinates in hex).
+func respell(sig, how string) string {
+	switch how {
+	case "upper":
+		return strings.ToUpper(sig)
+	case "mixed":
+		b := []byte(strings.ToLower(sig))
+		for i := 0; i < len(b); i += 2 {
+			if b[i] >= 'a' && b[i] <= 'f' {
+				b[i] -= 'a' - 'A'
+			}
+		}
+		if string(b) == strings.ToLower(sig) || string(b) == strings.ToUpper(sig) {
+			panic("mixed-case spelling coincides with another spelling")
+		}
+		return string(b)
+	case "miracl":
+		var sg bls.Sign
+		if err := sg.DeserializeHexStr(sig); err != nil {
+			panic(err)
+		}
+		f := strings.Fields(sg.GetHexString()) // "1 x y"
+		if len(f) != 3 {
+			panic("unexpected signature string " + sg.GetHexString())
+		}
+		return "(" + f[1] + "," + f[2] + ")"
+	}
+	return sig
 }
 
 func mintAction(w *world.World, mc mintCase) chainsim.Action {
@@ -182,6 +221,17 @@ func mintMonitor(w *world.World, authNames []string) chainsim.Monitor {
 				}
 			}
 			cause := "too-few-distinct-signers-all-signatures-valid"
+			spellings := map[string]bool{}
+			for _, e := range p.Signatures {
+				spellings[e.ID+":"+e.Signature] = true
+			}
+			ids := map[string]bool{}
+			for _, e := range p.Signatures {
+				ids[e.ID] = true
+			}
+			if len(spellings) > len(ids) {
+				cause = "one-authorizer-counted-several-times-through-respelled-signature-or-id"
+			}
 			if invalidUnderRegisteredID {
 				cause = "invalid-signature-under-registered-authorizer-id-counted"
 			}
@@ -328,9 +378,33 @@ func bridgeScenario(run *ev.Run, percent float64) *scenario {
 		{499, 3, "c0", "c0", []sigEntry{V("a0"), V("a1"), V("a2")}},
 		{100, 4, "c0", "c0", []sigEntry{V("a0"), V("a1"), V("a2")}},
 	}
+	// the same valid signature of ONE authorizer listed k times in different spellings (lower / upper / mixed
+	// case hex, MIRACL "(x,y)" form - Verify accepts all of them), k = threshold and threshold+1, alone and
+	// together with one other honest signer; plus the same entry under an upper-cased authorizer id
+	threshold := int(math.RoundToEven(percent * 3))
+	spell := []string{"valid", "upper", "mixed", "miracl"}
+	for i := 0; i < 3; i++ {
+		a, other := fmt.Sprintf("a%d", i), fmt.Sprintf("a%d", (i+1)%3)
+		for _, k := range []int{threshold, threshold + 1} {
+			for _, start := range []int{0, 1} { // two different selections of spellings
+				var sigs []sigEntry
+				for j := 0; j < k; j++ {
+					sigs = append(sigs, sigEntry{a, spell[(start+j)%len(spell)]})
+				}
+				extra = append(extra, mintCase{1000, 1, "c0", "c0", sigs})
+				if start == 0 {
+					extra = append(extra, mintCase{1000, 1, "c0", "c0", append([]sigEntry{V(other)}, sigs...)})
+					extra = append(extra, mintCase{1000, 1, "c0", "c0", append(append([]sigEntry{}, sigs...), V(other))})
+				}
+			}
+		}
+		extra = append(extra, mintCase{1000, 1, "c0", "c0", []sigEntry{V(a), {a, "idupper"}}})
+		extra = append(extra, mintCase{1000, 1, "c0", "c0", []sigEntry{{a, "miracl"}, {other, "upper"}}}) // honest quorum, respelled
+	}
 	for _, mc := range extra {
 		sc.acts = append(sc.acts, mintAction(w, mc))
 	}
+	sc.acts = append(sc.acts, rawMintActions(w)...)
 	sc.dq, sc.dt = 2, 4
 	sc.rule = "3 authorizers registered and staked through transactions (+1 unregistered key; second start state: registered but unstaked); BFS over mint payloads: every assignment of {absent, valid, forged-under-that-id} to the three authorizers with/without an entry of the unregistered key (53 sets), valid signatures over a different amount / nonce / receiver, duplicated entries in both orders, more entries than authorizers, submitter != receiver, nonce reuse with the same and with other content, amounts at min_mint and max_fee; oracle: minted => >= round(fraction*n) DISTINCT registered authorizers validly signed exactly (txn id, amount, nonce, receiver) (every signature re-verified by the monitor), submitter == receiver, nonce not minted before on this path, receiver gets amount - fee with 0 <= fee <= max_fee, bridge wallet pays exactly that, fee credited to authorizer stake pools; not minted => no tokens move"
 	return sc
@@ -345,6 +419,50 @@ func c18(run *ev.Run) {
 	run.Rule = sc.rule
 	run.Bounds["percent_authorizers"] = percent
 	_ = json.Marshal
-	_ = sort.Strings
 	explore(run, sc.w, sc.acts, sc.roots, run.Pick(sc.dq, sc.dt), true, 50, 780, mintMonitor(sc.w, []string{"a0", "a1", "a2"}))
+}
+
+// rawMintActions: payloads whose JSON spells the same thing differently (duplicated keys - the last one wins in
+// the contract's decoder -, numbers written as 1.0 / 1e0, upper-cased receiver id). The monitor decodes the
+// payload with the contract's own decoder, so what it judges is what the contract saw.
+func rawMintActions(w *world.World) []chainsim.Action {
+	sign := func(amount currency.Coin, nonce int64, receiver string, who ...string) string {
+		p := &zcnsc.MintPayload{EthereumTxnID: ethTxn, Amount: amount, Nonce: nonce, ReceivingClientID: receiver}
+		var parts []string
+		for _, n := range who {
+			sig, err := w.Actors[n].Scheme.Sign(p.GetStringToSign())
+			if err != nil {
+				panic(err)
+			}
+			parts = append(parts, fmt.Sprintf(`{"authorizer_id":%q,"signature":%q}`, w.Actors[n].ID, sig))
+		}
+		return "[" + strings.Join(parts, ",") + "]"
+	}
+	c0 := w.Actors["c0"].ID
+	raw := map[string]string{
+		// nonce written twice: signatures are over nonce 2 (the value the decoder keeps)
+		"[raw:nonce-key-twice(1,2),signed-for-2]": fmt.Sprintf(`{"ethereum_txn_id":%q,"amount":1000,"nonce":1,"receiving_client_id":%q,"signatures":%s,"nonce":2}`, ethTxn, c0, sign(1000, 2, c0, "a0", "a1")),
+		// ... and over nonce 1 (the value the decoder drops)
+		"[raw:nonce-key-twice(1,2),signed-for-1]": fmt.Sprintf(`{"ethereum_txn_id":%q,"amount":1000,"nonce":1,"receiving_client_id":%q,"signatures":%s,"nonce":2}`, ethTxn, c0, sign(1000, 1, c0, "a0", "a1")),
+		// amount written twice
+		"[raw:amount-key-twice(1000,5000),signed-for-1000]": fmt.Sprintf(`{"ethereum_txn_id":%q,"amount":1000,"nonce":1,"receiving_client_id":%q,"signatures":%s,"amount":5000}`, ethTxn, c0, sign(1000, 1, c0, "a0", "a1")),
+		// signatures list written twice: an empty honest-looking first list, the second one wins
+		"[raw:signatures-key-twice]": fmt.Sprintf(`{"ethereum_txn_id":%q,"amount":1000,"nonce":1,"receiving_client_id":%q,"signatures":%s,"signatures":%s}`, ethTxn, c0, sign(1000, 1, c0, "a0", "a1", "a2"), sign(1000, 1, c0, "a0")),
+		// numbers in another spelling
+		"[raw:nonce=1.0]":    fmt.Sprintf(`{"ethereum_txn_id":%q,"amount":1000,"nonce":1.0,"receiving_client_id":%q,"signatures":%s}`, ethTxn, c0, sign(1000, 1, c0, "a0", "a1")),
+		"[raw:amount=1e3]":   fmt.Sprintf(`{"ethereum_txn_id":%q,"amount":1e3,"nonce":1,"receiving_client_id":%q,"signatures":%s}`, ethTxn, c0, sign(1000, 1, c0, "a0", "a1")),
+		"[raw:amount=-1000]": fmt.Sprintf(`{"ethereum_txn_id":%q,"amount":-1000,"nonce":1,"receiving_client_id":%q,"signatures":%s}`, ethTxn, c0, sign(1000, 1, c0, "a0", "a1")),
+		// receiver id in upper case (signed as spelled)
+		"[raw:receiver-id-upper]": fmt.Sprintf(`{"ethereum_txn_id":%q,"amount":1000,"nonce":1,"receiving_client_id":%q,"signatures":%s}`, ethTxn, strings.ToUpper(c0), sign(1000, 1, strings.ToUpper(c0), "a0", "a1")),
+	}
+	var names []string
+	for n := range raw {
+		names = append(names, n)
+	}
+	sort.Strings(names)
+	var out []chainsim.Action
+	for _, n := range names {
+		out = append(out, call(w, "c0", "zcnsc", zcnsc.MintFunc, raw[n], 0, 0, n))
+	}
+	return out
 }
